@@ -168,9 +168,34 @@ def run(ctx):
                '' if not bad else '`%s` decides what to write with the tolerant comparison (floats within 1e-14 relative, ...): a small change of a value is '
                'treated as no change and never stored' % norm(bad[0]), node=bad[0] if bad else None, nontrivial=bool(bad))
     ctx.floor('C07-WRITE', nw, 6, 'write-path functions')
+    # ---------------------------------------------------------------- DECFLOAT
+    # SQLite (NUMERIC affinity) hands short decimals back as REAL.  Decimal(<float>) is the exact binary expansion of the float
+    # (Decimal(0.1) = 0.1000000000000000055...), Decimal(str(<float>)) its shortest decimal form: on the read side the raw database value
+    # must reach Decimal() through str()/repr(), whatever the scale (quantize only hides the noise below ~17 significant digits)
+    DC = repo.cls('pony.orm.dbapiprovider', 'DecimalConverter')
+    ndec = 0
+    for cls in repo.subclasses(DC):
+        f = cls.methods.get('sql2py')
+        if f is None or len(f.params) < 2: continue
+        if cls.mod.name != 'pony.orm.dbproviders.sqlite': continue      # PostgreSQL/MySQL/Oracle drivers deliver DECIMAL columns as Decimal or text, never as float
+        raw = f.params[1]
+        from ..q import alias_map, deref
+        am = alias_map(f.node)
+        for c in calls_in(f.node):
+            if dotted(c.func) == 'Decimal' and c.args:
+                ndec += 1
+                a = c.args[0]
+                direct = isinstance(a, ast.Name) and (a.id == raw or deref(f.node, a, am) == raw)
+                ok = not direct
+                ctx.ob('C07-DECFLOAT.database-real-reaches-Decimal-through-its-text', f, c, ok,
+                       '' if ok else '%s.sql2py builds Decimal(%s) from the raw database value: a REAL such as 0.1 becomes 0.1000000000000000055..., which quantize() '
+                       'does not remove for scales above ~16 digits' % (cls.name, norm(a)), node=c, expected='Decimal(str(val))')
+    ctx.floor('C07-DECFLOAT', ndec, 1, 'Decimal() constructions in read-side decimal converters')
 
 
 MUTANTS = [
+    dict(id='C07-dec1', file='pony/orm/dbproviders/sqlite.py', fn='SQLiteDecimalConverter.sql2py', old="        try: val = Decimal(str(val))", new="        try: val = Decimal(val)", expect='C07-DECFLOAT'),
+    dict(id='C07-dec2', file='pony/orm/dbproviders/sqlite.py', fn='SQLiteDecimalConverter.sql2py', old="        try: val = Decimal(str(val))", new="        try: val = Decimal(repr(val))", expect='C07-DECFLOAT', benign=True),
     dict(id='C07-n1', file='pony/orm/dbproviders/sqlite.py', fn='SQLiteArrayConverter.dbval2val', old="        if obj is None:\n            return items\n", new="        if obj is None:\n            return items\n        if not items and converter.attr.nullable:\n            return None\n", expect='C07-NULLMAP'),
     dict(id='C07-w1', file='pony/orm/core.py', fn='Entity._save_updated_', old="            update_columns.extend(attr.columns)\n            val = obj._vals_[attr]\n", new="            val = obj._vals_[attr]\n            if val == obj._dbvals_.get(attr): continue\n            update_columns.extend(attr.columns)\n", expect='C07-WRITE.every'),
     dict(id='C07-w2', file='pony/orm/core.py', fn='Entity._save_updated_', old="                dbval = attr.converters[0].val2dbval(val, obj)\n", new="                dbval = attr.converters[0].val2dbval(val, obj)\n                same = attr.converters[0].dbvals_equal(obj._dbvals_.get(attr), dbval)\n", expect='C07-WRITE.no-tolerant'),
